@@ -1,41 +1,5 @@
-(** C03 — statements that are written down in full but NOT proved yet (no proof is claimed for
-    them; they are exercised only by the correspondence runs and the harness's direct oracles).
-    Vocabulary: Spec.v. *)
-From Coq Require Import List ZArith NArith Bool.
+(** C03 — statements written down in full but not proved.
+    None at present: the six theorems of DESIGN.md (one_vote_per_step, precommit_needs_polka,
+    lock_rule, round_monotone, commit_needs_quorum, votes_only_valid) are all proved; their
+    statements are in Spec.v / Properties.v. *)
 From Kardia Require Import C03.Node C03.Spec.
-Import ListNotations.
-Local Open Scope N_scope.
-
-Section Statements.
-Variable valid : N -> block -> bool.
-Variable vals : N -> list Z.
-Variable proposer : N -> N -> N.
-Variable mkblock : N -> N -> option block.
-Variable cfg : config.
-Variable me : option N.
-Local Notation final_log := (final_log valid vals proposer mkblock cfg me).
-Local Notation quorum_received := (quorum_received vals).
-
-Definition C03_precommit_needs_polka_statement : Prop :=
-  forall ins post pre v,
-    final_log ins = post ++ EvOut (SignVote v) :: pre ->
-    v_type v = Precommit -> bid_is_zero (v_bid v) = false ->
-    quorum_received (received pre) Prevote (v_height v) (v_round v) (v_bid v) /\
-    exists b, held (received pre) b /\ b_hash b = bh (v_bid v) /\ valid (v_height v) b = true.
-
-Definition C03_lock_rule_statement : Prop :=
-  forall ins l3 l2 l1 p x,
-    final_log ins = l3 ++ EvOut (SignVote x) :: l2 ++ EvOut (SignVote p) :: l1 ->
-    v_type p = Precommit -> bid_is_zero (v_bid p) = false ->
-    v_type x = Prevote -> bid_is_zero (v_bid x) = false ->
-    v_height x = v_height p -> v_round p < v_round x -> bh (v_bid x) <> bh (v_bid p) ->
-    exists r'' y, v_round p < r'' /\ r'' <= v_round x /\ bh y <> bh (v_bid p) /\
-                  quorum_received (received (l2 ++ EvOut (SignVote p) :: l1)) Prevote (v_height p) r'' y.
-
-Definition C03_commit_needs_quorum_statement : Prop :=
-  forall ins post pre h b r,
-    final_log ins = post ++ EvOut (Commit h b r) :: pre ->
-    valid h b = true /\
-    exists id, bh id = b_hash b /\ quorum_received (received pre) Precommit h r id.
-
-End Statements.
